@@ -98,22 +98,32 @@ fn inspect_frame_variables<'v>(
     eval: &Evaluator<'v, '_, '_>,
     frame_index: usize,
 ) -> Option<SmallMap<String, Value<'v>>> {
-    // frame_stack is pushed in alloca_frame: last element = most recent parent.
-    // frame_index 1 = parent frame = frame_stack[len - 1], etc.
-    let stack_idx = eval.frame_stack.len().checked_sub(frame_index)?;
-    let frame_ptr = eval.frame_stack[stack_idx];
+    // `frame_index` counts entries of the call stack from the top (0 = current function).
+    // The call stack holds native functions too, but only functions written in Starlark have
+    // a frame of locals: `frame_stack` (pushed in `alloca_frame`) holds the frames of the
+    // Starlark functions below the current one, the last element being the nearest.
+    let function = eval.call_stack.top_nth_function_opt(frame_index)?;
+    let names = match to_scope_names_by_local_slot_id(function) {
+        Some(names) => names,
+        // The root of the evaluation: module variables.
+        None if function.is_none() => return None,
+        // A native function has no locals.
+        None => return Some(SmallMap::new()),
+    };
+    let starlark_frames_down = (1..=frame_index)
+        .filter(|i| {
+            eval.call_stack
+                .top_nth_function_opt(*i)
+                .and_then(to_scope_names_by_local_slot_id)
+                .is_some()
+        })
+        .count();
+    let stack_idx = eval.frame_stack.len().checked_sub(starlark_frames_down)?;
+    let frame_ptr = *eval.frame_stack.get(stack_idx)?;
     if !frame_ptr.is_inititalized() {
         // Module-level frame (null ptr) — return module variables.
         return None;
     }
-
-    // The call_stack has function values. The top of call_stack (count-1) is the
-    // current function. For frame_index N, we want call_stack entry at count-1-N.
-    // But call_stack entry 0 is typically the module, and entries 1..count are functions.
-    // top_nth_function(0) = call_stack[count-1] = current function.
-    // For frame_index N > 0, we want top_nth_function(N).
-    let function = eval.call_stack.top_nth_function_opt(frame_index)?;
-    let names = to_scope_names_by_local_slot_id(function)?;
 
     let mut res = SmallMap::with_capacity(names.len());
     for (slot, name) in names.iter().enumerate() {
